@@ -453,7 +453,7 @@ BCH = 'base._children'
 contract('info.SchemaType.deriveSectionType',
          params={'base': 'Ref[info.SectionType]', 'name': 'str', 'keytype': 'Fun[kt]', 'valuetype': 'Opt[Fun[dt]]',
                  'datatype': 'Opt[Fun[sdt]]'},
-         returns='Ref[info.SectionType]', fresh_result=True,
+         returns='Ref[info.SectionType]', fresh_result=True, no_alias_stores=True,
          requires=[Clause('datatype is not None', label='section-types-have-a-datatype'),
                    Clause('invariant_of(base)', label='RI-of-the-base-type')],
          modifies=['self._types.items'],
@@ -485,7 +485,7 @@ contract('info.SchemaType.deriveSectionType',
                      modifies=['t._children', '+info.BaseKeyInfo.*', '+info.BaseInfo.*'])])
 
 contract('info.createDerivedSchema', params={'base': 'Ref[info.SchemaType]'}, returns='Ref[info.SchemaType]',
-         fresh_result=True,
+         fresh_result=True, no_alias_stores=True,
          requires=[Clause('base.datatype is not None', label='schemas-have-a-datatype')],
          ensures=[Clause('fresh(result) and fresh(result._types) and result._types != base._types', carries='C12,C13',
                          label='own-type-table'),
